@@ -54,11 +54,15 @@ CfgCause(c) ==
   ELSE "none"
 
 \* an origin value denotes https://example.com (default port) exactly for these spellings
-SameOrigin(o) == o \in {"exact", "trailing_slash", "bare_host", "explicit_default_port"}
+\* named deviation UserinfoTolerated: "https://someone@example.com" has the origin https://example.com and no path, query or
+\* fragment; the validator accepts it although it is not the serialisation of an origin (harmless: the origin compared is right)
+SameOrigin(o) == o \in {"exact", "trailing_slash", "bare_host", "explicit_default_port", "userinfo"}
 OriginOnly(o)  == o \notin {"with_path", "with_query", "with_fragment", "absent", "not_a_string", "empty_string"}
 
+\* a subject with neither id nor origin is an empty subject: not even a well-formed credential
+EmptySubject(r) == r.subject = "absent" /\ r.origin = "absent"
 CredCause(r) ==
-  IF r.signed_with # "my_key" \/ r.expired THEN "CredentialValidationError"
+  IF r.signed_with # "my_key" \/ r.expired \/ EmptySubject(r) THEN "CredentialValidationError"
   ELSE IF r.has_id THEN "ImpermissibleIdProperty"
   ELSE IF ~r.type_present THEN "InvalidTypeProperty"
   ELSE IF r.subject = "absent" THEN "MissingSubjectId"
